@@ -103,10 +103,17 @@ func (dmx *Demuxer) NextPacket() (p *Packet, err error) {
 
 	// Create packet buffer if not exists
 	if dmx.packetBuffer == nil {
-		if dmx.packetBuffer, err = newPacketBuffer(dmx.r, dmx.optPacketSize, dmx.optPacketSkipper); err != nil {
-			err = fmt.Errorf("astits: creating packet buffer failed: %w", err)
+		// The packet buffer is only kept when its creation has succeeded
+		var pb *packetBuffer
+		if pb, err = newPacketBuffer(dmx.r, dmx.optPacketSize, dmx.optPacketSkipper); err != nil {
+			if errors.Is(err, ErrNoMorePackets) {
+				err = ErrNoMorePackets
+			} else {
+				err = fmt.Errorf("astits: creating packet buffer failed: %w", err)
+			}
 			return
 		}
+		dmx.packetBuffer = pb
 	}
 
 	// Fetch next packet from buffer
